@@ -22,3 +22,10 @@ func (app *App) VerifAllCertDomains() []string {
 	sort.Strings(out)
 	return out
 }
+
+// VerifPhase2 runs automaticHTTPSPhase2 (normally called at the end of
+// App.Start, after the listeners are bound): it hands App.allCertDomains
+// to the TLS app's Manage.
+func (app *App) VerifPhase2() error {
+	return app.automaticHTTPSPhase2()
+}
